@@ -223,6 +223,42 @@ package trie
 //@   ensures qr.isInner == 0 ==> qr.hasLeafPrefix == has_tail(st, int(qr.ithLeaf))
 //@   ensures qr.isInner == 0 && qr.hasLeafPrefix ==> sameslice(qr.leafPrefix, st.inner.LeafPrefixes.Bytes[tail_lo(st, int(qr.ithLeaf)):tail_hi(st, int(qr.ithLeaf))])
 
+// getIthInnerFrom / getIthInner: the inner-node half of getNode addressed by inner ordinal (used by initLevels; getIthInner
+// is currently unused): the same layout contract as getNode.
+//@ func (*SlimTrie).getIthInnerFrom
+//@   property C18 C10
+//@   requires wf_core(st) && qr != nil && 0 <= ithInner && int(ithInner) < nI(st)
+//@   modifies qr.from
+//@   split nS(st) 0 10
+//@   use at(ithInner)
+//@   use rank1_range(SBW(st), int(ithInner))
+//@   use mul_small(int(st.vars.ShortMinusInner), rank1(SBW(st), int(ithInner)))
+//@   ensures int(qr.from) == from_of(st, int(ithInner))
+
+//@ func (*SlimTrie).getIthInner
+//@   property C19 C10
+//@   requires wf_core(st) && qr != nil && 0 <= ithInner && int(ithInner) < nI(st)
+//@   modifies qr.wordSize, qr.from, qr.to, qr.bm
+//@   split nS(st) 0 10
+//@   use at(ithInner)
+//@   use rank1_range(SBW(st), int(ithInner))
+//@   use mul_small(int(st.vars.ShortMinusInner), rank1(SBW(st), int(ithInner)))
+//@   use bit_test(st.inner.ShortBM.Words[ithInner/64], int(ithInner)%64)
+//@   at "qr.to = qr.from + ns.ShortSize" assert int(qr.from) == from_of(st, int(ithInner)) && 0 <= qr.from && int(qr.to) <= 64*len(INW(st)) && qr.from < qr.to
+//@   at "qr.to = qr.from + innerSize" assert int(qr.from) == from_of(st, int(ithInner)) && 0 <= qr.from && int(qr.to) <= 64*len(INW(st))
+//@   at "qr.to = qr.from + bigInnerSize" assert int(qr.from) == from_of(st, int(ithInner)) && 0 <= qr.from && int(qr.to) <= 64*len(INW(st))
+//@   at "bm = (w >> uint32(j)) & " use bits_at_def(INW(st), int(qr.from), nS(st))
+//@   at "bm = (w >> uint32(j)) | " use bits_at_def(INW(st), int(qr.from), nS(st))
+//@   at "bm = (w >> uint32(j)) & " assert (bm & ^mask(nS(st))) == 0 && bm == bits_at(INW(st), int(qr.from), nS(st))
+//@   before "w2 := ns.Inners.Words[qr.to>>6]" use straddle(int(qr.from), nS(st), len(INW(st)))
+//@   at "bm = (w >> uint32(j)) | " assert int(qr.to)/64 == int(qr.from)/64 + 1
+//@   at "bm = (w >> uint32(j)) | " assert (bm & ^mask(nS(st))) == 0 && bm == bits_at(INW(st), int(qr.from), nS(st))
+//@   before "qr.bm = uint64(" use u2i_le_mask(bm, nS(st))
+//@   ensures int(qr.from) == from_of(st, int(ithInner)) && int(qr.to) == int(qr.from) + size_of(st, int(ithInner))
+//@   ensures 0 <= qr.from && qr.from < qr.to && int(qr.to) <= 64*len(INW(st))
+//@   ensures int(qr.wordSize) == ite(int(ithInner) < nB(st), 8, 4)
+//@   ensures is_short(st, int(ithInner)) ==> qr.bm == shortbm(st, int(ithInner))
+
 //@ func (*SlimTrie).getLeftChildID
 //@   property C01 C02 C03 C09 C10
 //@   requires wf_core(st) && qr != nil && keyBitIdx >= 0 && int(qr.keyBitLen) == 8*len(qr.key)
@@ -435,6 +471,20 @@ func lemmaTypedGettersAgreeOnFound(st *SlimTrie, key string) (bool, bool, bool, 
 
 // ---------------------------------------------------------------------------
 // String() (C19): the label bitmap handed to bmtree.Decode
+
+// String(): the walk over all inner nodes hands every callee arguments within its contract (node ids below the node
+// count, bit ranges inside the inner bitmap). The rendering itself (tree.String over the stringly adapter) is a dependency.
+//@ func (*SlimTrie).String
+//@   property C19
+//@   opt kinds=pre(getNode),pre(getInnerBM),pre(Rank128)
+//@   opaque wf_iprefix wf_lprefix
+//@   requires wf_query(st)
+//@   requires st.inner.NodeTypeBM != nil ==> forall(id, nN(st), 64*len(NTW(st)), bitat(NTW(st), id) == 0) // zero tail: bounded twin W2
+//@   at "*n = emp" use at(nid)
+//@   at "*n = emp" assert 0 <= nid && int(nid) < 64*len(NTW(st)) && bitat(NTW(st), nid) == 1
+//@   at "*n = emp" assert int(nid) < nN(st)
+//@   after getNode#1 use at(n.ithInner)
+//@   loop 1 invariant n != nil && ch == st.inner && s != nil && forall(k, 0, len(s.inners), 0 <= s.inners[k] && int(s.inners[k]) < 64*len(NTW(st)) && bitat(NTW(st), s.inners[k]) == 1)
 
 //@ func (*SlimTrie).getInnerBM
 //@   property C19
